@@ -683,6 +683,20 @@ class StmtMixin:
             for n in assigned_names([ast.Assign(targets=[t], value=ast.Constant(value=None))]):
                 if n not in names:
                     names.append(n)
+        # ghost variables assigned by ghost code anchored INSIDE the loop body change with every iteration like any
+        # other local: they are havocked at the loop head too (otherwise a ghost accumulator would keep its pre-loop value
+        # after the loop and a postcondition over it would mean nothing)
+        tc = self.top_contract
+        if tc is not None and tc.ghost_code and self.frame.contract is tc:
+            for sub in ast.walk(ast.Module(body=list(node.body), type_ignores=[])):
+                if isinstance(sub, ast.stmt) and not isinstance(sub, (ast.For, ast.While, ast.If, ast.Try, ast.With)):
+                    code = tc.ghost_code.get(anchor_txt(sub))
+                    if code is not None:
+                        for st in ast.parse(code).body:
+                            if isinstance(st, ast.Assign):
+                                for t in st.targets:
+                                    if isinstance(t, ast.Name) and t.id not in names:
+                                        names.append(t.id)
         self._havoc_set = set()
         self._havoc_types = {k.split('.')[-1]: v for k, v in spec.types.items() if '.' in k}
         self._havoc_fields = {}
